@@ -321,6 +321,16 @@ CLAIMED = {
              "entries are compared with the model's exe_entry.",
         technique="Coq proof (first-match lookup with the executable first) + generated multi-module programs linked by wild and executed",
         design_ref="DESIGN.md §3 C38"),
+    "C27": dict(
+        text="S1: what -r does to a relocation record and to a symbol (section concatenation with offsets, references to input section symbols retargeted to the merged section with the offset "
+             "added to the addend, named symbols moved with their sections) and the final link's resolution of a record under any placement. Theorems: resolving the rewritten record equals "
+             "resolving the original reference at the places the original sections and symbols finally occupy, for every grouping, placement, target kind and definition site; the same for "
+             "nested partial links with composed groupings; refuted without the addend adjustment.",
+        note="Partial: COMDAT groups, .eh_frame and section contents are covered by running programs only. Tie: generated C programs linked directly and through random (nested, partly GNU ld) "
+             "-r groupings, static and PIE, all run and compared; generated assembly objects with per-section markers: every input relocation is found in wild's -r output and both records are "
+             "resolved by the Coq model under the same placement.",
+        technique="Coq proof (linear arithmetic over arbitrary groupings and placements) + behavioural differential runs + relocation records evaluated by the model",
+        design_ref="DESIGN.md §3 C27"),
     "C10": dict(
         text="S1: Gallina model of what wild writes for unwinding (an FDE is kept iff the section its pc-begin points into was loaded and is not empty; one search-table entry per kept FDE with "
              "hdr-relative signed start and FDE pointer; the table sorted by the signed start) and of the consumer (the last entry with start <= pc, then the range check — what libgcc's binary "
